@@ -1092,6 +1092,7 @@ func runC02(e *Env) {
 		return
 	}
 	p := m.p
+	checkTargetConsts(e, p, load.Module, "E1.template", m.polFn, m.fragFn)
 	name := "x86_64=true,short=true"
 	c := newWctx(e, m, name)
 	var swc *ssa.Function
